@@ -76,6 +76,20 @@ def judge_c05(r, s):
                     r.fail("margin-invariant", op_index=i, op=o["op"], key=k, margin=float(mg), expected=float(want),
                            theorem="mtm_margin_eq / transact_margin_eq",
                            clause="margin = requirement x multiplier x |position| x liquidation price")
+        if o.get("ctx") is not None:
+            # Broker.context(): the quantities, cash and margins it reports are those of the account at that moment (the
+            # marked state the NLV in the same snapshot was computed from)
+            cx = o["ctx"]
+            bad = abs(cx["cash"] - o["cash"]) > tol
+            for k in s.specs:
+                if abs(cx["pos"].get(k, Fraction(0)) - o["pos"].get(k, Fraction(0))) > tol:
+                    bad = True
+                if abs(cx["margins"].get(k, Fraction(0)) - o["margins"].get(k, Fraction(0))) > tol:
+                    bad = True
+            if bad:
+                r.fail("context-snapshot-inconsistent", op_index=i, reported_cash=float(cx["cash"]), cash=float(o["cash"]),
+                       theorem="nlv_decomposition", clause="cash + all posted margins + liquidation value of fully-paid "
+                       "positions equals the reported NLV (fields of one Broker.context() snapshot)")
         if o.get("nlv") is not None:
             tot, ok = o["cash"], True
             for k, (m, cr, mr) in s.specs.items():
